@@ -959,13 +959,19 @@ func (p *Partition) compact() {
 			go func() {
 
 				// Compact to a new level.
-				p.compactToLevel(files, level+1, interrupt)
+				removeOld := p.compactToLevel(files, level+1, interrupt)
 
 				// Ensure compaction lock for the level is released.
 				p.mu.Lock()
 				p.levelCompacting[level] = false
 				p.currentCompactionN--
 				p.mu.Unlock()
+
+				// Discard the replaced files. This waits until their last reader is
+				// done, which must not hold up whoever waits for the compaction.
+				if removeOld != nil {
+					removeOld()
+				}
 
 				// Check for new compactions
 				p.Compact()
@@ -976,7 +982,13 @@ func (p *Partition) compact() {
 
 // compactToLevel compacts a set of files into a new file. Replaces old files with
 // compacted file on successful completion. This runs in a separate goroutine.
-func (p *Partition) compactToLevel(files []*IndexFile, level int, interrupt <-chan struct{}) {
+//
+// The compaction is complete once the file set and the manifest name the new file. The
+// returned function (nil if the compaction did not get that far) closes and deletes the
+// replaced files; closing waits until nobody reads them any more, so the caller runs it
+// after it has reported the compaction as finished: a reader that waits for running
+// compactions (Wait) while it holds the file set would otherwise wait for itself.
+func (p *Partition) compactToLevel(files []*IndexFile, level int, interrupt <-chan struct{}) (removeOld func()) {
 	assert(len(files) >= 2, "at least two index files are required for compaction")
 	assert(level > 0, "cannot compact level zero")
 
@@ -1074,15 +1086,17 @@ func (p *Partition) compactToLevel(files []*IndexFile, level int, interrupt <-ch
 	once.Do(func() { IndexFiles(files).Release() })
 
 	// Close and delete all old index files.
-	for _, f := range files {
-		log.Info("Removing index file", zap.String("path", f.Path()))
+	return func() {
+		for _, f := range files {
+			log.Info("Removing index file", zap.String("path", f.Path()))
 
-		if err := f.Close(); err != nil {
-			log.Error("Cannot close index file", zap.Error(err))
-			return
-		} else if err := os.Remove(f.Path()); err != nil {
-			log.Error("Cannot remove index file", zap.Error(err))
-			return
+			if err := f.Close(); err != nil {
+				log.Error("Cannot close index file", zap.Error(err))
+				return
+			} else if err := os.Remove(f.Path()); err != nil {
+				log.Error("Cannot remove index file", zap.Error(err))
+				return
+			}
 		}
 	}
 }
@@ -1121,11 +1135,17 @@ func (p *Partition) checkLogFile() error {
 	// Begin compacting in a background goroutine.
 	p.currentCompactionN++
 	go func() {
-		p.compactLogFile(logFile)
+		removeOld := p.compactLogFile(logFile)
 
 		p.mu.Lock()
 		p.currentCompactionN-- // compaction is now complete
 		p.mu.Unlock()
+
+		// Discard the log file. This waits until its last reader is done, which must
+		// not hold up whoever waits for the compaction.
+		if removeOld != nil {
+			removeOld()
+		}
 
 		p.Compact() // check for new compactions
 	}()
@@ -1136,7 +1156,10 @@ func (p *Partition) checkLogFile() error {
 // compactLogFile compacts f into a tsi file. The new file will share the
 // same identifier but will have a ".tsi" extension. Once the log file is
 // compacted then the manifest is updated and the log file is discarded.
-func (p *Partition) compactLogFile(logFile *LogFile) {
+//
+// Like compactToLevel it returns the function that closes and deletes the replaced
+// (log) file, to be run after the compaction has been reported as finished.
+func (p *Partition) compactLogFile(logFile *LogFile) (removeOld func()) {
 	if p.isClosing() {
 		return
 	}
@@ -1221,12 +1244,14 @@ func (p *Partition) compactLogFile(logFile *LogFile) {
 	)
 
 	// Closing the log file will automatically wait until the ref count is zero.
-	if err := logFile.Close(); err != nil {
-		log.Error("Cannot close log file", zap.Error(err))
-		return
-	} else if err := os.Remove(logFile.Path()); err != nil {
-		log.Error("Cannot remove log file", zap.Error(err))
-		return
+	return func() {
+		if err := logFile.Close(); err != nil {
+			log.Error("Cannot close log file", zap.Error(err))
+			return
+		} else if err := os.Remove(logFile.Path()); err != nil {
+			log.Error("Cannot remove log file", zap.Error(err))
+			return
+		}
 	}
 }
 
